@@ -18,7 +18,7 @@ namespace glm
 		T const y = static_cast<T>(2) * (q.x * q.y + q.w * q.z);
 		T const x = q.w * q.w + q.x * q.x - q.y * q.y - q.z * q.z;
 
-		if(all(equal(vec<2, T, Q>(x, y), vec<2, T, Q>(0), epsilon<T>()))) //avoid atan2(0,0) - handle singularity - Matiis
+		if(abs(static_cast<T>(2) * (q.x * q.z - q.w * q.y)) > static_cast<T>(1) - static_cast<T>(4) * epsilon<T>()) // gimbal lock: same test as pitch()
 			return static_cast<T>(0);
 
 		return static_cast<T>(atan(y, x));
@@ -31,7 +31,7 @@ namespace glm
 		T const y = static_cast<T>(2) * (q.y * q.z + q.w * q.x);
 		T const x = q.w * q.w - q.x * q.x - q.y * q.y + q.z * q.z;
 
-		if(all(equal(vec<2, T, Q>(x, y), vec<2, T, Q>(0), epsilon<T>()))) //avoid atan2(0,0) - handle singularity - Matiis
+		if(abs(static_cast<T>(2) * (q.x * q.z - q.w * q.y)) > static_cast<T>(1) - static_cast<T>(4) * epsilon<T>()) // gimbal lock: same test as roll()
 			return static_cast<T>(static_cast<T>(2) * atan(q.x, q.w));
 
 		return static_cast<T>(atan(y, x));
